@@ -119,7 +119,7 @@ CHECKS = {
         note="Sampled; later-wins/merge values under AllowDuplicateNames are checked for success and option-independence, not against a predicted value.",
         design_ref="5 (C08)"),
     "C09": dict(
-        technique="two implementations driven by the same call programs; TLC validates each step against the refinement relation of V1.tla and calibrates the specification's automaton against the reference implementation",
+        technique="two implementations driven by the same call programs; TLC validates each step against the refinement relation of V1.tla and calibrates the specification's automaton against the reference implementation; TLA+ state machine of encoding/json's Token/More/InputOffset over the token table, validated against both packages on programs over valid texts",
         text=("github.com/go-json-experiment/json/v1 and the toolchain's encoding/json execute the same programs - byte-string functions, Marshal/MarshalIndent of random values, Unmarshal into "
               "pre-populated targets, Decoder Token/More/Decode/InputOffset interleavings with UseNumber/DisallowUnknownFields, Encoder Encode/SetIndent/SetEscapeHTML sequences. TLC requires per "
               "step: succeed or fail together, identical bytes or identically rendered values on success, untouched target on syntactically invalid input, and (calibration) that classic Valid "
